@@ -105,6 +105,42 @@ fn main() {
         ctx.exhaustive(&name, "reader-case", &domain, true, all_chunkings(&input, &script).collect::<Vec<_>>(), run_case);
     }
 
+    // stale bytes: a long first chunk (a word of digits) leaves its tail in the reader's buffer; then the longest / shortest token of
+    // every integer type arrives in a chunk of its own (or with 1..2 bytes more or less), so that what lies behind the valid part of
+    // the buffer looks like more digits
+    {
+        let mut stale = Vec::new();
+        for ty in TYS {
+            let (mn, mx) = match ty {
+                Ty::I8 => (i8::MIN.to_string(), i8::MAX.to_string()),
+                Ty::I16 => (i16::MIN.to_string(), i16::MAX.to_string()),
+                Ty::I32 => (i32::MIN.to_string(), i32::MAX.to_string()),
+                Ty::I64 => (i64::MIN.to_string(), i64::MAX.to_string()),
+                Ty::I128 => (i128::MIN.to_string(), i128::MAX.to_string()),
+                Ty::Isize => (isize::MIN.to_string(), isize::MAX.to_string()),
+                Ty::U8 => ("0".to_string(), u8::MAX.to_string()),
+                Ty::U16 => ("0".to_string(), u16::MAX.to_string()),
+                Ty::U32 => ("0".to_string(), u32::MAX.to_string()),
+                Ty::U64 => ("0".to_string(), u64::MAX.to_string()),
+                Ty::U128 => ("0".to_string(), u128::MAX.to_string()),
+                Ty::Usize => ("0".to_string(), usize::MAX.to_string()),
+            };
+            for tok in [mn, mx] {
+                for extra in [1usize, 2, 11, 50] {
+                    for sep in [" ", "\n", "\r\n"] {
+                        let w = "7".repeat(tok.len() + extra);
+                        let input = format!("{}{}{}{}5\n", w, sep, tok, sep);
+                        let t0 = (w.len() + sep.len()) as u32;
+                        let t1 = t0 + tok.len() as u32;
+                        for cuts in [vec![w.len() as u32, t0, t1], vec![t0, t1], vec![w.len() as u32, t0, t1 - 1, t1], vec![t0 - 1, t1 + 1], vec![w.len() as u32, t0, t0 + 1, t1]] {
+                            stale.push(Case { input: input.clone(), script: vec![R::Word, R::Int(ty), R::Int(Ty::U8), R::IsEof], cuts, interrupts: vec![] });
+                        }
+                    }
+                }
+            }
+        }
+        ctx.exhaustive("shorter-chunk-after-a-longer-one", "reader-case", "a word of digits longer than the next token, then the minimum / maximum of each of the 12 integer types delivered in a chunk of its own (5 chunkings, 3 separators)", false, stale, run_case);
+    }
     ctx.prop_split("generated", "reader-case", ctx.n(6_000, 1_500_000), ctx.parts(), case(10).boxed(), run_case);
     ctx.prop_split("generated-short", "reader-case", ctx.n(6_000, 1_000_000), ctx.parts(), case(3).boxed(), run_case);
     if buf >= 1024 && buf <= (1 << 22) {
